@@ -89,7 +89,28 @@ func (p *Prog) envelopeIn(fkey string) *Envelope {
 	return hits[0]
 }
 
+// paramPos: position (receiver first) of the parameters the rules refer to, so that renaming a parameter
+// does not unbind a rule. Keyed by function name + the name the parameter has on the pinned tree.
+var paramPos = map[string]int{
+	"invoke:args": 3, "invoke:reply": 4,
+	"CallUnaryMethod:header": 2, "CallUnaryMethod:body": 3,
+	"RecvMsg:m": 1, "SendMsg:m": 1, "SendTrailer:trErr": 1,
+	"headersFromContext:ctx": 0,
+	"registerHandler:id": 1, "registerHandler:c": 2,
+	"runStream:streamId": 4,
+	"toStatusError:err": 0, "closeError:err": 1,
+	"forwardRpc:rpc": 2, "forwardRpc:source": 1,
+	"addOutgoingConnectionLocked:id": 1, "newConnLocked:id": 1,
+	"Write:ctx": 1, "Write:rpc": 2, "Write:pkt": 2,
+	"StatsEndRPC:appErr": 3,
+	"getChainUnaryHandler:interceptors": 0, "getChainUnaryHandler:curr": 1, "getChainUnaryHandler:finalHandler": 3,
+	"getChainStreamHandler:interceptors": 0, "getChainStreamHandler:curr": 1, "getChainStreamHandler:finalHandler": 3,
+}
+
 func paramNamed(f *ssa.Function, name string) *ssa.Parameter {
+	if i, ok := paramPos[f.Name()+":"+name]; ok && i < len(f.Params) {
+		return f.Params[i]
+	}
 	for _, pr := range f.Params {
 		if pr.Name() == name {
 			return pr
